@@ -262,7 +262,10 @@ func (opts *ParseRealtimeOptions) timezoneOrUTC() *time.Location {
 
 func ParseRealtime(content []byte, opts *ParseRealtimeOptions) (*Realtime, error) {
 	if opts.Extension == nil {
-		opts.Extension = extensions.NoExtension()
+		// Use a copy of the options so that the caller's value is not modified.
+		optsCopy := *opts
+		optsCopy.Extension = extensions.NoExtension()
+		opts = &optsCopy
 	}
 	if e, ok := opts.Extension.(extensions.PerMessageExtension); ok {
 		// Use a copy of the options so that the caller's value is not modified.
